@@ -74,6 +74,13 @@ CHECKS = {
             "two independent oracles written from the statement; the resolution rule of unlabeled break/continue is taken from the README and hir lowering",
             "runtime monitoring: offline trace-specification checker (exactly-once / LIFO / not-left) over recorded event logs + reference-model log equality",
             "cli", "4/C03"),
+    "C10": ("exploration",
+            "programs with many indexing / #unwrap sites are compiled once by the real CLI and executed once per (site, runtime index) selected through "
+            "the environment; the monitor sees exit status, fault message, markers before/after the access and the bytes of the indexed object between "
+            "guard words as they are when the process exits (atexit dump) or right after an in-range access; literal indices are judged at compile time.",
+            "expected memory images use the natural struct layout (validated by C17); fault text must contain 'index out of bounds' / mention unwrap",
+            "runtime monitoring: guarded-memory watch + event-marker ordering oracle over per-site executions of the compiled program",
+            "cli", "4/C10"),
 }
 
 NOT_YET = "check not built yet in this round (work in progress; see DESIGN.md section 4 for the plan)"
